@@ -23,6 +23,8 @@ enum Case {
     SeqAllPairs { cid: Cid, n: usize },
     /// equal-length owned sequences of length n: one-position pairs, fresh and headed
     SeqOnePosition { cid: Cid, n: usize },
+    /// owned sequences built with from_raw over every decodable code (documented alternatives included)
+    SeqAltCodes { cid: Cid, n: usize },
 }
 
 fn pair_bound(t: Tier) -> f64 {
@@ -50,6 +52,11 @@ fn gen(t: Tier, _seed: u64, emit: &mut dyn FnMut(Case)) {
             emit(Case::SeqAllPairs { cid, n });
             n += 1;
         }
+        if !bsv::spec::spec(cid).syms.iter().all(|s| s.alts.is_empty()) {
+            for n in [1usize, 2, 3] {
+                emit(Case::SeqAltCodes { cid, n });
+            }
+        }
         for n in wb_lengths(cid.bits(), t.pick(2, 3)).into_iter().chain(long_lengths(cid.bits()).into_iter().take(t.pick(4, 7))).chain(huge_lengths(cid.bits()).into_iter().step_by(2)) {
             if n > 0 {
                 emit(Case::SeqOnePosition { cid, n });
@@ -60,7 +67,7 @@ fn gen(t: Tier, _seed: u64, emit: &mut dyn FnMut(Case)) {
 
 fn run(c: &Case, out: &mut Out) {
     match c {
-        Case::AllPairs { cid, .. } | Case::OnePosition { cid, .. } | Case::MinMax { cid, .. } | Case::SeqAllPairs { cid, .. } | Case::SeqOnePosition { cid, .. } => {
+        Case::AllPairs { cid, .. } | Case::OnePosition { cid, .. } | Case::MinMax { cid, .. } | Case::SeqAllPairs { cid, .. } | Case::SeqOnePosition { cid, .. } | Case::SeqAltCodes { cid, .. } => {
             bsvk::dispatch_k!(*cid, run_g(c, out))
         }
     }
@@ -327,6 +334,31 @@ fn run_g<A: SxK>(c: &Case, out: &mut Out) {
             }
             out.dim("seq_len", *n as i64);
             out.observe(&(A::CID, *n, 3u8));
+        }
+        Case::SeqAltCodes { n, .. } => {
+            // every sequence of length n over the decodable codes; order must be the numeric order of the packed bits,
+            // i.e. that of the k-mer holding the same bits
+            let decodable: Vec<u8> = (0..=255u8).filter(|c| (*c as usize) < (1usize << bits) && A::try_from_bits(*c).is_some()).collect();
+            let mut all: Vec<Vec<u8>> = Vec::new();
+            all_seqs(*n, decodable.len(), &mut |v| all.push(v.iter().map(|&i| decodable[i as usize]).collect()));
+            let stride = (all.len() / 200).max(1);
+            let picked: Vec<&Vec<u8>> = all.iter().step_by(stride).collect();
+            let seqs: Vec<Option<Seq<A>>> = picked.iter().map(|c| Seq::<A>::from_raw(*n, &pack_words(c, bits).iter().map(|w| *w as usize).collect::<Vec<usize>>())).collect();
+            for (i, a) in picked.iter().enumerate() {
+                for (j, b) in picked.iter().enumerate() {
+                    let (Some(sa), Some(sb)) = (&seqs[i], &seqs[j]) else { continue };
+                    out.units += 1;
+                    let want = colex(a, b);
+                    let got = catch(|| A::seq_cmp_obs(sa, sb));
+                    out.check(matches!(&got, Ok(Some(o)) if o.cmp == want), || {
+                        (
+                            format!("{cn}/seq-cmp/alternative-codes-not-ordered-like-kmers"),
+                            format!("Seq from_raw codes {a:?} vs {b:?}: cmp = {:?}, the k-mers with the same bits order {:?}", got.as_ref().map(|o| o.map(|o| o.cmp)), want),
+                        )
+                    });
+                }
+            }
+            out.observe(&(A::CID, *n, 5u8));
         }
         Case::SeqOnePosition { n, .. } => {
             let mut by_code = al.clone();
